@@ -172,6 +172,7 @@ type SimNode struct {
 	pingPayload  []byte
 	pingDone     []string
 
+	slowMsg     time.Duration // NotifyMsg blocks this long (slow application delegate)
 	gen         int
 	leaveGate   chan struct{} // harness-side serialisation of Leave calls (see DESIGN: sync.Mutex is not durable blocking)
 	shutGate    chan struct{}
@@ -287,7 +288,15 @@ func (n *SimNode) NodeMeta(limit int) []byte {
 func (n *SimNode) NotifyMsg(b []byte) {
 	n.mu.Lock()
 	n.msgs = append(n.msgs, msgRec{n.sim.Now(), append([]byte(nil), b...)})
+	slow := n.slowMsg
 	n.mu.Unlock()
+	if slow > 0 {
+		// a slow application callback (legal): the packet handler is busy for a while
+		select {
+		case <-time.After(slow):
+		case <-n.sim.quit:
+		}
+	}
 }
 func (n *SimNode) GetBroadcasts(overhead, limit int) [][]byte {
 	n.mu.Lock()
